@@ -98,8 +98,12 @@ def check_mgr_history(ctx: Ctx, hist, steps):
 
     def fail(i, sig, what, **extra):
         nonlocal first
-        if first is None:
+        n = len(ctx.oracle_failures)
+        _record(i, sig, what, **extra)
+        if len(ctx.oracle_failures) > n and first is None:   # a KNOWN finding must not hide a different failure later on
             first = i
+
+    def _record(i, sig, what, **extra):
         ctx.oracle_fail(sig, dict({"kind": "mgr", "cfg": hist["cfg"], "ops": hist["ops"][: i + 1], "failing_step": i,
                                    "observed": steps[i]}, **extra), what)
 
@@ -142,9 +146,6 @@ def check_mgr_history(ctx: Ctx, hist, steps):
                     dsz = {d[0]: d[1] for d in disk}
                     if any(dsz[e[0]] != e[1] for e in mo["entries"]):
                         fail(i, f"bookkeeping:sizes-vs-disk:{kind}:{mode}", "a registry entry's size differs from the file's size")
-            else:
-                # never an entry for a file that this manager itself deleted; never more files than entries + foreign ones
-                pass
             # ---- per operation
             if kind == "move":
                 k = op["key"]
@@ -203,8 +204,6 @@ def check_mgr_history(ctx: Ctx, hist, steps):
         else:
             if kind in ("tick",) and disk != prev_disk:
                 fail(i, "disk-changed-without-operation", "the cache directory changed while no operation ran")
-        if "who" not in op or op["who"] == 0:
-            pass
         prev_disk = disk
         prev_mgr = ob["mgr"]
         if first is not None:
@@ -304,8 +303,12 @@ def check_butler_history(ctx: Ctx, hist, res):
 
     def fail(i, sig, what, **extra):
         nonlocal first
-        if first is None:
+        n = len(ctx.oracle_failures)
+        _record(i, sig, what, **extra)
+        if len(ctx.oracle_failures) > n and first is None:
             first = i
+
+    def _record(i, sig, what, **extra):
         ctx.oracle_fail(sig, dict({"kind": "butler", "mode": mode, "thr": thr, "ops": hist["ops"][: i + 1], "failing_step": i,
                                    "cached": res["cached"][i], "uncached": res["uncached"][i]}, **extra), what)
 
@@ -493,7 +496,10 @@ def coq_reg_case(hist, res):
 def _batch(func, hists, per_worker, timeout=600):
     payloads = [{"histories": hists[i:i + per_worker]} for i in range(0, len(hists), per_worker)]
     out = []
-    for pl, (st, r) in zip(payloads, parallel_workers("c17_impl", func, payloads, timeout=timeout)):
+    first = parallel_workers("c17_impl", func, payloads, timeout=timeout)
+    # a worker that died (not: hung) is retried once, alone: /repo may have been mid-update when it imported the package
+    first = [(st, r) if st != "crash" else run_worker("c17_impl", func, pl, timeout=timeout) for pl, (st, r) in zip(payloads, first)]
+    for pl, (st, r) in zip(payloads, first):
         for j, h in enumerate(pl["histories"]):
             out.append((h, r["results"][j] if st == "ok" else None, None if st == "ok" else f"{st}: {str(r)[-1500:]}"))
     return out
